@@ -1279,20 +1279,11 @@ typename db<Key, Value>::iterator& db<Key, Value>::iterator::seek(
           // do a left-most descent under that right-sibling. If there
           // is no such parent, we will wind up with an empty stack
           // (aka the end() iterator) and return that state.
-          if (!empty()) pop();
-          while (!empty()) {
-            const auto& centry = top();
-            const auto cnode{centry.node};  // possible parent from the stack
-            auto* const icnode{cnode.template ptr<inode_type*>()};
-            const auto cnxt = icnode->next(
-                cnode.type(), centry.child_index);  // right-sibling.
-            if (cnxt) {
-              auto nchild = icnode->get_child(cnode.type(), centry.child_index);
-              return left_most_traversal(nchild);
-            }
-            pop();
-          }
-          return *this;  // stack is empty (aka end()).
+          //
+          // Note: the top of the stack is the entry for the parent of [node],
+          // positioned on the child we descended through, which is exactly the
+          // state next() steps from.
+          return next();
         }
         const auto& tmp = nxt.value();  // unwrap.
         const auto child_index = tmp.child_index;
@@ -1309,20 +1300,11 @@ typename db<Key, Value>::iterator& db<Key, Value>::iterator::seek(
         // left-sibling and then do a right-most descent under that
         // left-sibling.  In the extreme case there is no such
         // previous entry and we will wind up with an empty stack.
-        if (!empty()) pop();
-        while (!empty()) {
-          const auto& centry = top();
-          const auto cnode{centry.node};  // possible parent from stack
-          auto* const icnode{cnode.template ptr<inode_type*>()};
-          const auto cnxt =
-              icnode->prior(cnode.type(), centry.child_index);  // left-sibling.
-          if (cnxt) {
-            auto nchild = icnode->get_child(cnode.type(), centry.child_index);
-            return right_most_traversal(nchild);
-          }
-          pop();
-        }
-        return *this;  // stack is empty (aka end()).
+        //
+        // Note: the top of the stack is the entry for the parent of [node],
+        // positioned on the child we descended through, which is exactly the
+        // state prior() steps from.
+        return prior();
       }
       const auto& tmp = nxt.value();  // unwrap.
       const auto child_index{tmp.child_index};
